@@ -283,8 +283,26 @@ def sharing_case():
     return dict(traits=traits, sub=[], ops=ops)
 
 
+def object_level_case():
+    """An object-level handler (on_trait_change without a name) on one instance: default reads stay silent, assignments
+    report old defaults, in-place mutation of Trait{List,Dict,Set}Object values clones the items traits into that
+    instance only; the sibling and a later instance see nothing."""
+    traits = [dict(name=n, kind=k, content=c, scalar=2, static=(n == 1)) for n, (k, c) in enumerate([
+        ("KConst", [5]), ("KTraitList", [1, 2]), ("KTraitDict", [1, 1]), ("KTraitSet", [1]), ("KUnion", [6]),
+        ("KMethod", [7]), ("KMethodInt", [4]), ("KTuple", [3]), ("KDictCopy", [2, 2])])]
+    ops = [["NewInst", 0], ["NewInst", 0], ["Register", 0, -2, 1, False]]
+    for n in range(9):
+        ops += [["Read", 0, n], ["Mutate", 0, n, 100 + n]]
+    ops += [["Assign", 0, 0, [5], 0], ["Assign", 0, 0, [6], 0], ["Assign", 0, 1, [1, 2, 101], 0], ["Assign", 0, 1, [9], 0],
+            ["Assign", 1, 5, [7], 0], ["Assign", 1, 6, [4], 0], ["Register", 1, -2, 2, False], ["Assign", 1, 6, [5], 0],
+            ["Assign", 1, 2, [1, 1], 0], ["Mutate", 1, 4, 300], ["NewInst", 0]]
+    for n in range(9):
+        ops += [["Read", 2, n], ["Read", 1, n]]
+    return dict(traits=traits, sub=[], ops=ops)
+
+
 def corpus():
-    return [all_kinds_case(False), all_kinds_case(True), sharing_case()]
+    return [all_kinds_case(False), all_kinds_case(True), sharing_case(), object_level_case()]
 
 
 def run(ctx):
@@ -308,7 +326,7 @@ def run(ctx):
         cases = [json.load(open(ctx.replay))["replay"]["case"]]
     else:
         cases = corpus() + [gen_case(rnd, ctx, maxlen) for _ in range(n)]
-    for c in cases[2:5] + cases[-1:]:
+    for c in cases[2:5] + cases[-1:]:   # evidence samples: two corpus cases, one random, the last random
         ctx.sample(c)
     _evaluate = hist.evaluate
 
